@@ -109,7 +109,7 @@ def gen_skin(rng, big=False):
     mats = []
     for _ in range(nj):
         mats.extend(small_matrix(rng))
-    nw = rng.choice([0, 1, 2, 3, 5, 9])
+    nw = rng.choice([0, 1, 2, 3, 3, 5, 5, 9])
     # the vertex_weights JOINT input normally names the same source as <joints>; sometimes its own
     wj_names = None
     if rng.random() < 0.15:
@@ -117,7 +117,7 @@ def gen_skin(rng, big=False):
     nwj = nj if wj_names is None else len(wj_names)
     jo, wo = rng.choice([(0, 1), (0, 1), (0, 1), (1, 0), (1, 0), (1, 0), (0, 0), (0, 2), (2, 0), (1, 2), (2, 1)])
     nind = max(jo, wo) + 1
-    nvert = rng.choice([0, 1, 2, 3, 4, 6] if not big else [12, 20])
+    nvert = rng.choice([0, 1, 2, 3, 3, 4, 4, 6] if not big else [12, 20])
     infl = []
     for _ in range(nvert):
         ct = rng.choice([0, 0, 1, 1, 2, 3, 4])
@@ -378,26 +378,6 @@ def tree_paths(t, acc=None):
     return out
 
 
-def truth(c, exp):
-    """what the file says, computed from the abstract case without any pycollada or Lean code"""
-    if exp != 'ok':
-        return 'err:' + exp
-    gidx = [g['id'] for g in c['geoms']].index(c['src'])
-    if c['kind'] == 'morph':
-        ids = [g['id'] for g in c['geoms']]
-        return 'ok base=%d pairs=%s' % (gidx, ','.join('%d:%d' % (ids.index(t), w) for t, w in zip(c['targets'], c['weights'])))
-    nind = max(c['jo'], c['wo']) + 1
-    rows, at = [], 0
-    for ct in c['vcounts']:
-        rows.append([c['v'][nind * (at + k):nind * (at + k + 1)] for k in range(ct)])
-        at += ct
-    bind = c['bind'] or IDENT
-    d = {}
-    for i, n in enumerate(c['names']):
-        d[n] = c['mats'][16 * i:16 * i + 16]
-    return fmt_skin(gidx, bind, list(d.items()), rows, c['jo'], c['wo'])
-
-
 def fmt_skin(gidx, bind, joints, rows, jo, wo):
     return 'ok geom=%d bind=%s joints=%s groups=%s pairs=%s' % (
         gidx, ','.join(str(x) for x in bind),
@@ -527,3 +507,326 @@ def run_impl(c):
         except Exception as e:
             bound = 'err:' + errclass(e)
     return line, bound, problem
+
+
+# ----------------------------------------------------------------------------- reference outcome, protocol lines
+
+def reference2(c):
+    """(line, why): the decoded content the file states, or the error class the property demands, and the name of the
+    construct that decides it — computed from the abstract case alone (no pycollada, no Lean): the generator's ground truth"""
+    ids = [g['id'] for g in c['geoms']]
+    MAL, REF = 'err:DaeMalformedError', 'err:DaeBrokenRefError'
+    if c['src'] not in ids:
+        return REF, 'source-geometry-dangling'
+    gidx = ids.index(c['src'])
+    if c['kind'] == 'morph':
+        if c['method'] not in (None, 'NORMALIZED', 'RELATIVE'):
+            return MAL, 'method-unknown'
+        if len(c['targets']) != len(c['weights']):
+            return MAL, 'targets-weights-length'
+        if any(t not in ids for t in c['targets']):
+            return REF, 'target-dangling'
+        return ('ok base=%d pairs=%s' % (gidx, ','.join('%d:%d' % (ids.index(t), w) for t, w in zip(c['targets'], c['weights']))),
+                'valid' if c['targets'] else 'no-targets')
+    nind = max(c['jo'], c['wo']) + 1
+    if c['bind'] is not None and len(c['bind']) != 16:
+        return MAL, 'bind-shape-length'
+    if len(c['mats']) % 16 != 0:
+        return MAL, 'matrix-source-ragged'
+    if len(c['mats']) != 16 * len(c['names']):
+        return MAL, 'joints-matrices-length'
+    if any(ct < 0 for ct in c['vcounts']):
+        return MAL, 'vcount-negative'
+    if len(c['v']) != nind * sum(c['vcounts']):
+        return MAL, 'v-surplus' if len(c['v']) > nind * sum(c['vcounts']) else 'v-short'
+    rows, at = [], 0
+    for ct in c['vcounts']:
+        rows.append([c['v'][nind * (at + k):nind * (at + k + 1)] for k in range(ct)])
+        at += ct
+    nwj = len(c['names']) if c['wj'] is None else len(c['wj'])
+    why = 'valid' if sum(c['vcounts']) else ('no-influences' if c['vcounts'] else 'no-vertices')
+    for g in rows:
+        for r in g:
+            if r[c['jo']] < -1:
+                return MAL, 'joint-index-negative'
+            if r[c['wo']] < 0:
+                return MAL, 'weight-index-negative'
+            if r[c['jo']] >= nwj:
+                return MAL, 'joint-index-beyond-source'
+            if r[c['wo']] >= c['nw']:
+                return MAL, 'weight-index-beyond-source'
+            if r[c['jo']] == -1:
+                why = 'valid-joint-minus-one'
+    d = {}
+    for i, n in enumerate(c['names']):
+        d[n] = c['mats'][16 * i:16 * i + 16]
+    return fmt_skin(gidx, c['bind'] or IDENT, list(d.items()), rows, c['jo'], c['wo']), why
+
+
+def reference(c):
+    return reference2(c)[0]
+
+
+def shape(c):
+    """stable name of the construct a case exercises (used in signatures), derived from the content of the case"""
+    return reference2(c)[1]
+
+
+def csv(xs):
+    return ','.join(str(x) for x in xs)
+
+
+def tree_tokens(t):
+    if t[0] == 'I':
+        return ['I']
+    out = ['N'] + [str(x) for x in (t[1] or IDENT)] + [str(len(t[2]))]
+    for k in t[2]:
+        out.extend(tree_tokens(k))
+    return out
+
+
+def lines_of(c):
+    """protocol lines of a case: the decode request and, when a scene instantiates the controller, the binding request"""
+    ids = csv(g['id'] for g in c['geoms'])
+    if c['kind'] == 'skin':
+        nwj = len(c['names']) if c['wj'] is None else len(c['wj'])
+        first = ('skin geoms=%s src=%s bind=%s names=%s mats=%s nwj=%d nw=%d jo=%d wo=%d vc=%s v=%s'
+                 % (ids, c['src'], '_' if c['bind'] is None else csv(c['bind']), csv(c['names']), csv(c['mats']),
+                    nwj, c['nw'], c['jo'], c['wo'], csv(c['vcounts']), csv(c['v'])))
+        bind = c['bind']
+    else:
+        first = ('morph geoms=%s src=%s method=%s targets=%s weights=%s'
+                 % (ids, c['src'], '_' if c['method'] is None else c['method'], csv(c['targets']), csv(c['weights'])))
+        bind = None
+    out = [first]
+    if c['tree'] is not None:
+        ok_bind = bind is None or len(bind) == 16
+        out.append('scene bind=%s tree=%s' % ('_' if bind is None or not ok_bind else csv(bind), ','.join(tree_tokens(c['tree']))))
+    return out
+
+
+def fmt_bound(ms):
+    return 'ok ' + ';'.join(csv(m) for m in ms)
+
+
+def judge(c):
+    """run the real code on a case and evaluate the property directly.
+    Returns (impl decode line, impl bound line or None, failure (signature, text) or None)"""
+    want = reference(c)
+    line, bound, problem = run_impl(c)
+    tag = '%s:%s' % (c['kind'], shape(c))
+    if line != want:
+        if line.startswith('err:') and want.startswith('err:'):
+            return line, None, (tag + ':' + line[4:], 'the file must be rejected as %s but loading ended with %s' % (want[4:], line[4:]))
+        if line.startswith('err:'):
+            return line, None, (tag + ':' + line[4:], 'a well-formed %s is not loaded: %s (the file says %s)' % (c['kind'], line[4:], want))
+        if want.startswith('err:'):
+            return line, None, (tag + ':accepted', 'the file must be rejected as %s but was accepted and decoded as %s' % (want[4:], line))
+        return line, None, (tag + ':decoded-wrong', 'decoded %s but the file says %s' % (line, want))
+    if problem:
+        return line, None, (tag + ':oracle', problem)
+    bline = None
+    if line.startswith('ok') and c['tree'] is not None:
+        wantb = fmt_bound(truth_bound(c))
+        bline = bound if isinstance(bound, str) else fmt_bound(bound)
+        if bline != wantb:
+            return line, bline, ('bind:%s:%s' % (c['kind'], 'error' if bline.startswith('err') else 'matrix'),
+                                 'binding through the scene gives %s, path x bind shape is %s' % (bline, wantb))
+    return line, bline, None
+
+
+def shrink(c, sig):
+    """greedy structural shrinking that keeps the failure signature"""
+    import copy
+
+    def fails(x):
+        try:
+            f = judge(x)[2]
+        except Exception:
+            return False
+        return f is not None and f[0] == sig
+
+    def candidates(x):
+        if x['tree'] is not None:
+            y = copy.deepcopy(x); y['tree'] = None; yield y
+            y = copy.deepcopy(x); y['tree'] = ['N', None, [['I']]]; yield y
+            if x['tree'][1] is not None:
+                y = copy.deepcopy(x); y['tree'] = ['N', x['tree'][1], [['I']]]; yield y
+        used = set([x['src']] + (x['targets'] if x['kind'] == 'morph' else []))
+        for i, g in enumerate(x['geoms']):
+            if g['id'] not in used and len(x['geoms']) > 1:
+                y = copy.deepcopy(x); del y['geoms'][i]; yield y
+        for g in range(len(x['geoms'])):
+            if len(x['geoms'][g]['prims']) > 1:
+                y = copy.deepcopy(x); y['geoms'][g]['prims'] = y['geoms'][g]['prims'][:1]; yield y
+        if x['kind'] == 'morph':
+            for i in range(len(x['targets'])):
+                if i < len(x['weights']):
+                    y = copy.deepcopy(x); del y['targets'][i]; del y['weights'][i]; yield y
+            return
+        if x['bind'] is not None and len(x['bind']) == 16:
+            y = copy.deepcopy(x); y['bind'] = None; yield y
+        if x['wj'] is not None:
+            y = copy.deepcopy(x); y['wj'] = None; yield y
+        nind = max(x['jo'], x['wo']) + 1
+        if all(ct >= 0 for ct in x['vcounts']):
+            at = 0
+            for i, ct in enumerate(x['vcounts']):
+                y = copy.deepcopy(x)
+                del y['vcounts'][i]
+                del y['v'][nind * at:nind * (at + ct)]
+                yield y
+                at += ct
+        if x['names'] and len(x['mats']) >= 16:
+            y = copy.deepcopy(x); y['names'] = y['names'][:-1]; y['mats'] = y['mats'][:-16]; yield y
+        if x['nw'] > 0:
+            y = copy.deepcopy(x); y['nw'] -= 1; yield y
+        if (x['jo'], x['wo']) not in ((0, 1), (1, 0)) and len(x['v']) == nind * sum(max(ct, 0) for ct in x['vcounts']):
+            y = copy.deepcopy(x)
+            rows = [x['v'][nind * k:nind * (k + 1)] for k in range(len(x['v']) // nind)]
+            y['jo'], y['wo'] = 0, 1
+            y['v'] = [e for r in rows for e in (r[x['jo']], r[x['wo']])]
+            yield y
+
+    cur = c
+    progress = True
+    steps = 0
+    while progress and steps < 200:
+        progress = False
+        for y in candidates(cur):
+            steps += 1
+            if fails(y):
+                cur = y
+                progress = True
+                break
+    return cur
+
+
+def directed_cases():
+    """fixed corpus: the constructs that failed on the pinned tree (each must now pass) and the edge shapes"""
+    g = dict(id='g0', verts=[[0, 0, 0], [1, 0, 0], [0, 1, 0]], prims=[[[0, 1, 2]]])
+    m1 = [1, 0, 0, 1, 0, 1, 0, 2, 0, 0, 1, 3, 0, 0, 0, 1]
+    m2 = [0, -1, 0, 0, 1, 0, 0, 0, 0, 0, 1, 0, 0, 0, 0, 1]
+    tree = ['N', m1, [['N', m2, [['I']]], ['I']]]
+
+    def skin(**kw):
+        c = dict(kind='skin', geoms=[g], src='g0', bind=m2, jkind='Name', names=['root', 'hip'], mats=m1 + m2, wj=None, nw=3,
+                 jo=0, wo=1, inorder='JW', jorder='JM', vcounts=[2, 0, 1], v=[0, 0, 1, 2, 1, 1], tree=tree, mut=None)
+        c.update(kw)
+        return c
+
+    def morph(**kw):
+        c = dict(kind='morph', geoms=[g, dict(g, id='g1')], src='g0', method=None, targets=['g1', 'g0'], weights=[4, 8],
+                 inorder='TW', tree=tree, mut=None)
+        c.update(kw)
+        return c
+    return [
+        skin(), skin(jo=1, wo=0, inorder='WJ'), skin(bind=None), skin(jkind='IDREF'),
+        skin(vcounts=[0, 0, 0], v=[]), skin(vcounts=[0, 0], v=[], nw=0), skin(vcounts=[0], v=[], names=[], mats=[]),
+        skin(vcounts=[], v=[]), skin(vcounts=[], v=[], names=[], mats=[], nw=0),
+        skin(v=[0, 0, 1, 2, 1, 1, 0], mut='v_surplus'), skin(v=[0, 0, 1, 2, 1, 1, 0, 0], mut='v_surplus'),
+        skin(v=[0, 0, 1, 2, 1], mut='v_short'), skin(vcounts=[2, 0, 0], mut='vcount_minus'), skin(vcounts=[2, 0, 2], mut='vcount_plus'),
+        skin(vcounts=[-1], v=[0, 0], mut='vcount_neg'), skin(vcounts=[3, -1, 1], mut='vcount_neg'),
+        skin(v=[0, 0, 2, 2, 1, 1], mut='joint_oor'), skin(v=[0, 0, 1, 3, 1, 1], mut='weight_oor'),
+        skin(v=[0, 0, -2, 2, 1, 1], mut='joint_neg'), skin(v=[0, 0, 1, -1, 1, 1], mut='weight_neg'), skin(v=[0, 0, -1, 2, 1, 1], mut='joint_m1'),
+        skin(mats=m1, mut='mats_short'), skin(mats=m1 + m2 + [1], mut='mats_ragged'), skin(mats=m1 + m2[:-3], mut='mats_ragged'),
+        skin(names=['root'], mut='names_short'), skin(bind=m2[:-1], mut='bind_len'), skin(src='zz', mut='geom_dangling'),
+        skin(names=['hip', 'hip']), skin(wj=['a', 'b', 'c']), skin(wj=['a'], mut='wj_short'),
+        morph(), morph(method='RELATIVE'), morph(method='NORMALIZED', inorder='WT'), morph(targets=[], weights=[]),
+        morph(targets=['g1'], mut='len_targets'), morph(weights=[4], mut='len_weights'), morph(targets=['g1', 'zz'], mut='target_dangling'),
+        morph(method='relative', mut='method_bad'), morph(src='zz', mut='base_dangling'),
+    ]
+
+
+def run(ctx):
+    ctx.rule = ('own generator of controller documents rendered as XML bytes: 1-6 geometries, a skin (0-8 joints in a Name_array or '
+                'IDREF_array, inverse bind matrices with small integer entries, 0-9 weights, 0-6 vertices (12-20 in the large variant) '
+                'with 0-4 influences each, JOINT/WEIGHT offsets (0,1) (1,0) (0,0) and gapped (0,2) (2,0) (1,2) (2,1), inputs in either XML order, '
+                'bind shape present or absent, vertex_weights JOINT input sharing the <joints> source or its own) or a morph (0-5 targets, '
+                'method absent/NORMALIZED/RELATIVE), instantiated 1..n times in a node tree of depth <= 4 with integer matrices; about 40% '
+                'carry exactly one malformation (out-of-range / negative joint or weight index, surplus or short <v>, vcount too big, too '
+                'small or negative, matrix source short/long/ragged, name list short/long, bind shape of 15/17 values, dangling geometry, '
+                'morph length mismatch, unknown method, dangling target); plus a fixed corpus of 39 directed documents. Non-trivial = a '
+                'skin with at least one influence, a morph with at least one target, or a document carrying a malformation; distinct = '
+                'distinct abstract document')
+    ncases = ctx.n(2500, 60000)
+    cases = directed_cases()
+    for i in range(ncases):
+        c, exp = gen_case(ctx.rng, big=ctx.thorough and i % 50 == 0)
+        want = reference(c)
+        if (want[4:] if want.startswith('err:') else 'ok') != exp:
+            raise AssertionError('generator inconsistent: mutation %r expects %s, reference says %s' % (c['mut'], exp, want))
+        cases.append(c)
+    lines = []
+    for c in cases:
+        lines.extend(lines_of(c))
+    model = ctx.driver('C19', lines) if ctx.lean_ok else None
+    pos = 0
+    reported = set()
+    import warnings
+    warnings.simplefilter('ignore')
+    for c in cases:
+        ls = lines_of(c)
+        want = reference(c)
+        line, bline, bad = judge(c)
+        ninf = sum(max(x, 0) for x in c['vcounts']) if c['kind'] == 'skin' else len(c['targets'])
+        ctx.case(dict(c, geoms=[g['id'] for g in c['geoms']]), nontrivial=bool(ninf > 0 or c['mut']))
+        ctx.count('kind:' + c['kind'])
+        ctx.count('shape:%s:%s' % (c['kind'], shape(c)))
+        ctx.count('malformation:%s' % c['mut'])
+        ctx.count('outcome:' + (line[4:] if line.startswith('err:') else 'ok'))
+        if c['kind'] == 'skin':
+            ctx.count('offsets:%d,%d/%s' % (c['jo'], c['wo'], c['inorder']))
+            ctx.count('joints:' + c['jkind'])
+            ctx.count('bind_shape:' + ('absent' if c['bind'] is None else 'present'))
+            ctx.count('influences:' + ('0' if ninf == 0 else '1-4' if ninf <= 4 else '5+'))
+            if any(x == 0 for x in c['vcounts']) and ninf > 0:
+                ctx.count('influences:mixed-with-zero-count-vertices')
+        else:
+            ctx.count('morph-targets:%d' % len(c['targets']))
+            ctx.count('morph-method:%s' % c['method'])
+        if bline is not None:
+            ctx.count('bound-instances', len(truth_bound(c)))
+        if bad:
+            if bad[0] not in reported:
+                reported.add(bad[0])
+                small = shrink(c, bad[0])
+                _, _, b2 = judge(small)
+                b2 = b2 or bad
+                ctx.violation(b2[0], '%s [%s]' % (b2[1], b2[0]), dict(kind='oracle', case=small, xml=doc_xml(small).decode('utf-8')))
+        elif model is not None:
+            got = model[pos:pos + len(ls)]
+            mine = [line] + ([bline] if len(ls) > 1 else [])
+            if len(ls) > 1 and bline is None:
+                mine = [line, got[1]]      # document rejected: nothing is bound, nothing to compare
+            if got != mine:
+                i = 0 if got[0] != mine[0] else 1
+                sig = 'corr:%s:%s:%s' % (c['kind'], shape(c), 'decode' if i == 0 else 'bind')
+                if sig not in reported:
+                    reported.add(sig)
+                    ctx.violation(sig, 'correspondence Pyc.Skin <-> collada/controller.py broke on %r: model %r, implementation %r (= generator '
+                                  'ground truth); the direct oracle found no failing input on this case, so the theorems of '
+                                  'Pyc/Props/C19.lean no longer describe the code' % (ls[i][:300], got[i], mine[i]),
+                                  dict(kind='correspondence', case=c, lines=ls, model=got, impl=mine), found_input=False)
+        pos += len(ls)
+    ctx.assumptions.append('geometry ids are distinct; documents use the COLLADA 1.4.1 namespace; integer-valued matrices, so float32 arithmetic is '
+                           'exact; joint index -1 is in range (bind shape); numpy, xml.etree and CPython semantics are modelled')
+
+
+def replay(ctx, rep):
+    import warnings
+    warnings.simplefilter('ignore')
+    c = rep['case']
+    if rep.get('kind') == 'correspondence':
+        model = ctx.driver('C19', rep['lines'])
+        line, bline, bad = judge(c)
+        mine = [line] + ([bline if bline is not None else model[1]] if len(rep['lines']) > 1 else [])
+        if bad:
+            print('  ' + bad[1])
+        elif model != mine:
+            print('  model %r\n  impl  %r' % (model, mine))
+        return bad is not None or model != mine
+    _, _, bad = judge(c)
+    if bad:
+        print('  %s [%s]' % (bad[1], bad[0]))
+    return bad is not None
